@@ -71,8 +71,8 @@ Theorem C16_quarter_turns_and_sized_crops :
      exists d', RandomSizedBBoxSafeCrop_apply_to_dicom sh sw d hs ws ds ch cw cd ip c r s = Ok d' /\
        h_spacing d' = (fst (h_spacing d) * (inject_Z sh / inject_Z ch), snd (h_spacing d) * (inject_Z sw / inject_Z cw)) /\
        same_but_spacing d' d) /\
-  (forall keep d cp pp pv pvm rr rc rs ip c r s, (0 < rr)%Z -> (0 < rc)%Z ->
-     exists d', CropAndPad_apply_to_dicom keep d cp pp pv pvm rr rc rs ip c r s = Ok d' /\
+  (forall keep pm d cp pp pv pvm rr rc rs ip c r s, (0 < rr)%Z -> (0 < rc)%Z ->
+     exists d', CropAndPad_apply_to_dicom keep pm d cp pp pv pvm rr rc rs ip c r s = Ok d' /\
        if keep then
          h_spacing d' = (fst (h_spacing d) * (inject_Z r / inject_Z rr), snd (h_spacing d) * (inject_Z c / inject_Z rc)) /\
          same_but_spacing d' d
